@@ -129,11 +129,11 @@ func (s *String) ReadFrom(r io.Reader) (n int64, err error) {
 		return n, errors.New("string length less than zero")
 	}
 
-	bs, _, err := readDeclaredBytes(r, nil, int(l))
+	bs, m, err := readDeclaredBytes(r, nil, int(l))
+	n += int64(m)
 	if err != nil {
 		return n, err
 	}
-	n += int64(l)
 
 	*s = String(bs)
 	return n, nil
@@ -177,7 +177,10 @@ func readDeclaredBytes(r io.Reader, buf []byte, n int) ([]byte, int, error) {
 func readByte(r io.Reader) (int64, byte, error) {
 	if r, ok := r.(io.ByteReader); ok {
 		v, err := r.ReadByte()
-		return 1, v, err
+		if err != nil {
+			return 0, v, err
+		}
+		return 1, v, nil
 	}
 	var v [1]byte
 	// io.ReadFull: a single Read may return (0, nil), or the byte together with io.EOF
